@@ -167,7 +167,7 @@ def run_c03(chk):
     chk.exhaustive = True
     if not quick:
         for name, cfg in (("spell2", "J5Wire_spell2.cfg"), ("fault2", "J5Wire_fault2.cfg")):
-            r = chk.tlc("J5WireMC.tla", cfg, name, workers=W, simulate=6000, depth=12, seed=chk.seed, timeout=2400)
+            r = chk.tlc("J5WireMC.tla", cfg, name, workers=W, simulate=1200, depth=12, seed=chk.seed, timeout=2400)
             check_model(chk, r)
             cases += r.cases
     else:
@@ -331,7 +331,7 @@ def selftest(prop):
             log("SELFTEST-FAIL %s: corrupted document not counted as non-conformance (%s)" % (prop, v))
             ok = False
         # a stub observation that breaks the property must be flagged by the driver's predicate
-        stub = dict(next(c for c in cases if c["pos"] == "top" and c["vl"] != "unset"))
+        stub = dict(next(c for c in r.cases if c["pos"] == "top" and c["kind"] == "int64" and c["vl"] == "max"))
         stub["stub"] = "break"
         out = chk.replay("wire-all", [stub], "st_stub", workers=1)[0].get("out") or {}
         if not out.get("viol"):
